@@ -203,4 +203,178 @@ theorem witnesses_accepted :
     (parseColor "CIELab(50 20 -30)".toList).isSome = true ∧ (parseColor "ReBeccaPurple".toList).isSome = true := by
   decide +kernel
 
+
+/-! ### The parser cannot slice inside a character (the one place the model has a "panic")
+
+`tag_no_case` of nom 7 compares characters but splits off the tag's *byte* length.  The model
+returns `fail` where that split would not fall on a character boundary (a Rust panic).  For every
+tag the parser uses this never happens, whatever the input. -/
+
+section nopanic
+open Pastel.P
+
+/-- Dropping `n` bytes succeeds when the first `n` characters are single-byte and there are at
+least `n` bytes. -/
+theorem dropBytes_ascii : ∀ (n : Nat) (s : List Char), (∀ c ∈ s.take n, c.utf8Size = 1) →
+    n ≤ (s.map Char.utf8Size).sum → dropBytes n s ≠ none := by
+  intro n
+  induction n using Nat.strong_induction_on with
+  | _ n ih =>
+    intro s hs hsum
+    cases n with
+    | zero => simp [dropBytes]
+    | succ n =>
+      cases s with
+      | nil => simp at hsum
+      | cons c rest =>
+        have hc : c.utf8Size = 1 := hs c (by simp)
+        unfold dropBytes
+        rw [if_pos (by omega)]
+        rw [hc]
+        have : n + 1 - 1 = n := by omega
+        rw [this]
+        apply ih n (by omega)
+        · intro x hx
+          exact hs x (by simp [List.take_succ_cons]; exact Or.inr hx)
+        · simp only [List.map_cons, List.sum_cons, hc] at hsum
+          omega
+
+theorem utf8Size_ascii (a : Char) (ha : a.toNat < 128) : a.utf8Size = 1 := by
+  unfold Char.utf8Size
+  have h2 : a.val ≤ UInt32.ofNatLT 127 (by decide) := by
+    rw [UInt32.le_iff_toNat_le]
+    show a.val.toNat ≤ 127
+    have : a.val.toNat < 128 := ha
+    omega
+  simp only []
+  rw [if_pos h2]
+
+/-- If the ASCII-lower-cased character equals an ASCII character, the character is ASCII. -/
+theorem ascii_of_lower_eq (a b : Char) (hb : b.toNat < 128)
+    (h : (if 'A' ≤ a ∧ a ≤ 'Z' then Char.ofNat (a.toNat + 32) else a) = b) : a.toNat < 128 := by
+  by_cases hA : 'A' ≤ a ∧ a ≤ 'Z'
+  · have : a.toNat ≤ 'Z'.toNat := hA.2
+    have hz : 'Z'.toNat = 90 := by decide
+    omega
+  · rw [if_neg hA] at h
+    rw [h]; exact hb
+
+/-- A character that matches a non-`k` ASCII tag character case-insensitively is ASCII. -/
+theorem lowerMatches_ascii (b a : Char) (hb : b.toNat < 128) (hk : b ≠ 'k') (h : lowerMatches b a = true) :
+    a.utf8Size = 1 := by
+  unfold lowerMatches at h
+  simp only [Bool.or_eq_true, Bool.and_eq_true, decide_eq_true_eq, hk, false_and, or_false] at h
+  exact utf8Size_ascii a (ascii_of_lower_eq a b hb h)
+
+/-- A character that matches `k` is ASCII or U+212A KELVIN SIGN (three bytes). -/
+theorem lowerMatches_k (a : Char) (h : lowerMatches 'k' a = true) : a.utf8Size = 1 ∨ a.utf8Size = 3 := by
+  unfold lowerMatches at h
+  simp only [Bool.or_eq_true, Bool.and_eq_true, decide_eq_true_eq, true_and] at h
+  rcases h with h | h
+  · exact Or.inl (utf8Size_ascii a (ascii_of_lower_eq a 'k' (by decide) h))
+  · right
+    have : a = Char.ofNat 0x212A := by
+      apply Char.ext
+      apply UInt32.toNat_inj.mp
+      show a.val.toNat = _
+      have : a.val.toNat = 0x212A := h
+      rw [this]; decide
+    rw [this]; decide
+
+/-- The characters of the input that were matched against a `k`-free ASCII tag are single-byte. -/
+theorem matched_prefix_ascii (t s : List Char) (ht : ∀ b ∈ t, b.toNat < 128 ∧ b ≠ 'k')
+    (hm : ∀ p ∈ s.zip t, lowerMatches p.2 p.1 = true) : ∀ c ∈ s.take t.length, c.utf8Size = 1 := by
+  intro c hc
+  have hz : (s.zip t).map Prod.fst = s.take (min s.length t.length) := by
+    rw [List.zip_eq_zip_take_min, List.map_fst_zip (by simp)]
+  have hc' : c ∈ s.take (min s.length t.length) := by
+    rcases Nat.le_total s.length t.length with h | h
+    · rw [Nat.min_eq_left h, List.take_of_length_le (Nat.le_refl _)]
+      exact List.mem_of_mem_take hc
+    · rw [Nat.min_eq_right h]; exact hc
+  rw [← hz] at hc'
+  obtain ⟨⟨a, b⟩, hab, rfl⟩ := List.mem_map.mp hc'
+  have hb := ht b (List.of_mem_zip hab).2
+  exact lowerMatches_ascii b a hb.1 hb.2 (hm (a, b) hab)
+
+/-- **The case-insensitive tag matcher never slices inside a character** for a tag made of ASCII
+characters other than `k`: whatever the input, the outcome is `ok` or `err`, never the `fail`
+that stands for the implementation's panic. -/
+theorem tagNoCase_no_panic (t s : List Char) (ht : ∀ b ∈ t, b.toNat < 128 ∧ b ≠ 'k') :
+    tagNoCase t s ≠ .fail := by
+  unfold tagNoCase
+  simp only []
+  split
+  · next hcond =>
+    simp only [Bool.and_eq_true, decide_eq_true_eq, List.all_eq_true] at hcond
+    have hd : dropBytes t.length s ≠ none :=
+      dropBytes_ascii _ _ (matched_prefix_ascii t s ht (fun p hp => hcond.1 p hp)) hcond.2
+    cases hdb : dropBytes t.length s with
+    | none => exact absurd hdb hd
+    | some r => simp
+  · simp
+
+/-- The one tag with a `k`, `oklab(`: U+212A KELVIN SIGN (three bytes) is accepted for the `k`, and
+the six bytes split off still end on a character boundary — no panic for any input. -/
+theorem tagNoCase_oklab_no_panic (s : List Char) : tagNoCase "oklab(".toList s ≠ .fail := by
+  unfold tagNoCase
+  simp only []
+  split
+  · next hcond =>
+    simp only [Bool.and_eq_true, decide_eq_true_eq, List.all_eq_true] at hcond
+    obtain ⟨hm, hsum⟩ := hcond
+    have hlen : "oklab(".toList.length = 6 := by decide
+    have hd : dropBytes 6 s ≠ none := by
+      match s, hm, hsum with
+      | [], _, hsum => simp at hsum
+      | [c0], hm, hsum =>
+        have h0 : c0.utf8Size = 1 := lowerMatches_ascii 'o' c0 (by decide) (by decide) (hm (c0, 'o') (by simp [List.zip]))
+        simp only [List.map_cons, List.map_nil, List.sum_cons, List.sum_nil, h0, hlen] at hsum
+        omega
+      | c0 :: c1 :: rest, hm, hsum =>
+        have h0 : c0.utf8Size = 1 := lowerMatches_ascii 'o' c0 (by decide) (by decide) (hm (c0, 'o') (by simp [List.zip]))
+        have hrest : ∀ p ∈ rest.zip "lab(".toList, lowerMatches p.2 p.1 = true := by
+          intro p hp
+          apply hm p
+          show p ∈ ((c0 :: c1 :: rest).zip ('o' :: 'k' :: "lab(".toList))
+          simp only [List.zip_cons_cons, List.mem_cons]
+          exact Or.inr (Or.inr hp)
+        have hasc : ∀ c ∈ rest.take 4, c.utf8Size = 1 := matched_prefix_ascii "lab(".toList rest (by decide) hrest
+        have hk := hm (c1, 'k') (by simp [List.zip])
+        simp only [List.map_cons, List.sum_cons, h0, hlen] at hsum
+        unfold dropBytes
+        rw [if_pos (by omega), h0]
+        show dropBytes 5 (c1 :: rest) ≠ none
+        rcases lowerMatches_k c1 hk with h1 | h3
+        · unfold dropBytes
+          rw [if_pos (by omega), h1]
+          show dropBytes 4 rest ≠ none
+          exact dropBytes_ascii 4 rest hasc (by omega)
+        · unfold dropBytes
+          rw [if_pos (by rw [h3]; decide), h3]
+          show dropBytes 2 rest ≠ none
+          apply dropBytes_ascii 2 rest
+          · intro c hc
+            have : rest.take 2 = (rest.take 4).take 2 := by simp [List.take_take]
+            rw [this] at hc
+            exact hasc c (List.mem_of_mem_take hc)
+          · omega
+    rw [hlen]
+    cases hdb : dropBytes 6 s with
+    | none => exact absurd hdb hd
+    | some r => simp
+  · simp
+
+
+/-- Every tag the parser passes to `tag_no_case`: no input makes the matcher panic. -/
+theorem all_tags_no_panic (s : List Char) :
+    tagNoCase "nan".toList s ≠ .fail ∧ tagNoCase "inf".toList s ≠ .fail ∧ tagNoCase "infinity".toList s ≠ .fail ∧
+    tagNoCase "cie".toList s ≠ .fail ∧ tagNoCase "lab(".toList s ≠ .fail ∧ tagNoCase "lch(".toList s ≠ .fail ∧
+    tagNoCase "oklab(".toList s ≠ .fail :=
+  ⟨tagNoCase_no_panic _ s (by decide), tagNoCase_no_panic _ s (by decide), tagNoCase_no_panic _ s (by decide),
+   tagNoCase_no_panic _ s (by decide), tagNoCase_no_panic _ s (by decide), tagNoCase_no_panic _ s (by decide),
+   tagNoCase_oklab_no_panic s⟩
+
+end nopanic
+
 end Pastel.C01
